@@ -33,6 +33,14 @@ CHECKS = {
         note=PROOF_NOTE + "Modelled, not verified: torch.fft.fftn/ifftn (textbook N-d DFT, inverse pair), torch narrow/cat acting fibre-wise, float32 rounding (exact-arithmetic theorems only).",
         technique="Coq proof (list rotation lemmas over regenerated index arithmetic; MathComp DFT algebra over a field with a primitive root) + exact correspondence + numeric contract validation",
         design="§6 C01"),
+    "C02": dict(
+        text="The element expressions of complex_multiplication / complex_division / safe_divide / conjugate / modulus / matrix product and the call structure of reduce_operator / expand_operator / complex_dot_product are regenerated on every run over an abstract field "
+             "and proved (ring / field) to be complex arithmetic: product, conjugate, commutativity, associativity, distributivity, |z|^2 = z conj z, multiplicativity of the modulus, division = 0 on zero divisors and the inverse of multiplication elsewhere; "
+             "per spatial position and for any number of coils: <E x, y> = <x, R y> for arbitrary maps, R(E x) = x when sum |S|^2 = 1, linearity, invariance under simultaneous coil permutation. Satisfiable in Qc. "
+             "Tied by exact correspondence on integer / dyadic tensors with the coil axis at every position (Q instance evaluated in Coq).",
+        note=PROOF_NOTE + "Modelled, not verified: torch broadcasting / indexing / sum over the coil axis (harness flattens to pixels); float rounding, overflow, underflow (extreme magnitudes only exercised against native complex arithmetic); sqrt through squares.",
+        technique="Coq proof (ring/field over regenerated expressions in an abstract field, induction over the coil list) + exact correspondence over Q",
+        design="§6 C02"),
     "C12": dict(
         text="Theorems for every file list, slice filter (step 1), context size and index: per-volume ranges are contiguous/ordered/partition 0..len-1, the i-th range holds exactly the admissible slices of file i in order, "
              "the context window has 2c+1 entries with entry j = slice s-c+j or a zero slice, and ConcatDataset's negative-index normalisation + bisect_right + offset lands in the member containing the index. "
